@@ -12,7 +12,7 @@ import Generated.C07Sites
   (`modelSites`) to the generated rows.
 * `{"op":"search","opts":{…},"ops":[["ask",n,fitted,random] | ["tell",fit] …]}` — evaluates the
   hand model `searchProgram`: well-initialised?, number of proposals, same outputs in two worlds?,
-  different outputs for two seeds?
+  different outputs for two seeds?, same outputs after earlier searches ran in the interpreter (`worldAfter`)?
 -/
 
 open Lean DH.Wire DH.Streams
@@ -105,7 +105,10 @@ def handle (j : Json) : Except String Json := do
     let o₂ := outputs lcg 42 prog (mkWorld 9 2)
     let o₃ := outputs lcg 43 prog (mkWorld 0 1)
     let asks := (ops.filter (fun x => match x with | .ask .. => true | _ => false)).length
+    -- the same search after two earlier searches of the interpreter (another seed, the same seed) and a global draw
+    let o₄ := outputs lcg 42 prog (worldAfter lcg [(7, prog ++ [.draw 1 .numpyGlobal]), (42, prog)] (mkWorld 0 1))
     return Json.mkObj [("ok", true), ("well_init", WellInit prog), ("pure", prog.all Instr.pure),
+      ("history_independent", decide (o₁ = o₄)),
       ("proposals", o₁.length), ("asks", asks), ("same_outputs", decide (o₁ = o₂)), ("seeds_differ", decide (o₁ ≠ o₃)),
       ("instructions", prog.length),
       ("draws_root", (prog.filter (fun i => match i with | .draw _ (.seeded 0) => true | _ => false)).length),
